@@ -41,6 +41,19 @@ def gen_cases(ctx):
                     bt["min_" + "xyz"[tr]] = bt["max_" + "xyz"[tr]] = "periodic"
                 c["det"] = [[0, s_] for s_ in shape]
             cases.append(c)
+    # two (and three) electric planes at once: every wall must be a full plane of the reduced volume
+    combos = [(0, 1), (0, 2), (1, 2), (0, 1, 2)]
+    for axes in (combos if not ctx.quick else [combos[ctx.rng.randint(0, 2)], combos[3]]):
+        shape = [ctx.rng.randint(2, 4) for _ in range(3)]
+        bt = {}
+        for a, ax in enumerate("xyz"):
+            if a in axes:
+                shape[a] = 10
+                bt["min_" + ax] = bt["max_" + ax] = "pec"
+            else:
+                k = ctx.rng.choice(["periodic", "pec", "pmc"])
+                bt["min_" + ax] = bt["max_" + ax] = k
+        cases.append({"axis": axes[0], "axes": list(axes), "shape": shape, "bt": bt, "steps": 2, "seed": ctx.rng.randint(0, 10**6)})
     return cases
 
 
@@ -51,7 +64,8 @@ def run_cases(ctx, cases):
 def reduced_case(case, out):
     """case description of the reduced container for the model: shape, boundary types incl. the symmetry wall (PEC on the min face)"""
     shape = list(case["shape"])
-    shape[case["axis"]] //= 2
+    for a in (case.get("axes") or [case["axis"]]):
+        shape[a] //= 2
     return {"shape": shape, "bt": dict(case["bt"])}      # min face of the symmetric axis: PEC wall (same mask as a user PEC)
 
 
@@ -79,8 +93,14 @@ def predicate(case, out):
             if e > 1e-12 * out["det_scale"]:
                 return (f"reduction-detector-differs:axis={case['axis']}", f"unfolded co-located detector record differs from the full-domain record inside the light cone at row {t}: {e:.3e}")
     walls = [w for w in out["walls"] if w[3]]
-    if len(walls) != 1 or walls[0][0] != case["axis"] or walls[0][1] != "-" or "Electric" not in walls[0][2]:
-        return ("symmetry-wall", f"expected exactly one PEC symmetry wall on the min face of axis {case['axis']}, got {out['walls']}")
+    axes = list(case.get("axes") or [case["axis"]])
+    if sorted(w[0] for w in walls) != sorted(axes) or any(w[1] != "-" or "Electric" not in w[2] for w in walls):
+        return ("symmetry-wall", f"expected exactly one PEC symmetry wall on the min face of each of the axes {axes}, got {out['walls']}")
+    rshape = out.get("reduced_shape")
+    for w in walls:       # each wall is the whole min-face plane of the reduced volume
+        exp = [[0, 1] if a == w[0] else [0, rshape[a]] for a in range(3)]
+        if rshape and len(w) > 4 and w[4] != exp:
+            return (f"symmetry-wall-extent:axis={w[0]};planes={axes}", f"symmetry wall on axis {w[0]} covers {w[4]}, the min face of the reduced volume is {exp}")
     return None
 
 
@@ -89,4 +109,4 @@ def nontrivial(case, out):
 
 
 def classify(case, out):
-    return f"axis={case['axis']}|" + "+".join(sorted(set(case["bt"].values())))
+    return f"axes={case.get('axes') or [case['axis']]}|" + "+".join(sorted(set(case["bt"].values())))
